@@ -100,7 +100,7 @@ class StmtMixin:
         if sort is None and isinstance(tgt, ast.Attribute) and tgt.attr in self.m.fields:
             sort = self.m.fields[tgt.attr]
         if sort is None:
-            return self.opaque("empty_" + kind)
+            return EmptyV(kind)  # stays untyped until it meets a sort (x + [], coerce, iteration)
         return self.empty_of(sort)
 
     def empty_of(self, sort):
@@ -363,6 +363,9 @@ class StmtMixin:
             return
         spec = self.loop_spec(idx)
         v = self.ev(it, st)
+        if isinstance(v, EmptyV):
+            self.exec_block(s.orelse, st)
+            return
         if isinstance(v, TupV) and not spec:
             try:
                 for e in v.items:
